@@ -10,6 +10,9 @@ blocks, header variants; the full product literals kind x sequence menu x mode t
 content the specification computes (or "invalid").  The harness
 serialises every frame with its own bit packers (accepted only if libzstd agrees with the specification), decodes it
 through decode_all, the streaming reader, decode_blocks+collect and decode_from_to, and compares bytes and metadata.
+SeqStream.tla is the sequences bitstream bit by bit (three interleaved FSE states, order of initial states, extra bits and
+state updates): for every distinct compressed block of those frames TLC decodes the stream bytes by the specification and
+compares with the sequences the frame was built from and with the triples the real decoder reports through its events.
 Real compressors: random legal schedules over decodecorpus files and libzstd / ruzstd output (levels -5..22, window logs,
 long-distance mode, checksum / content size flags, flush patterns), oracle = the original bytes; the repeat-offset
 events of those decodes are checked row by row against RepStep.
@@ -51,6 +54,29 @@ def check(ctx):
     for m in zj["first"]:
         ctx.violation("spec-generated frame %s: %s" % (json.dumps(m["frame"])[:500], "; ".join(m["errors"])[:600]), m, tag="zf")
     ctx.add_samples(zj["samples"][:1], 1)
+    # ---- the sequences bitstream itself, bit by bit: SeqStream.tla against the serializer and the real decoder's events ----
+    srows = ctx.path("seqstream_rows.ndjson")
+    srep = ctx.path("seqstream.json")
+    vh(ctx, ["seqstream", cases, srows, srep, 1], timeout=3000)
+    ssj = json.load(open(srep))
+    sn, sbad, sfirst = rows_run(ctx, "SeqStream", srows, "SeqStreamRows")
+    ctx.cov["sequence_bitstreams"] = {"frames": ssj["frames"], "distinct_blocks": ssj["distinct_rows"], "rows_checked": sn, "bad": sbad, "mode_triples": len(ssj["mode_triples"])}
+    if sbad:
+        ctx.violation("%d of %d sequence bitstreams: the specification's reading, the sequences the frame was built from and the decoder's sequence events "
+                      "do not agree, first: %s" % (sbad, sn, sfirst), {"rows": srows, "first": sfirst}, tag="seqstream")
+    # self-test of the row check: one extra bit claimed in a literal length must be noticed
+    with open(srows) as f:
+        r0 = json.loads(f.readline())
+    r0["meant"][0][0] += 1
+    r0["decoded"][0][0] += 1
+    st = ctx.path("seqstream_selftest.ndjson")
+    write_ndjson(st, [r0])
+    tn, tbad, _ = rows_run(ctx, "SeqStream", st, "SeqStreamSelftest")
+    if tbad != 1:
+        raise ToolError("self-test failed: a sequence bitstream row with a wrong literal length is accepted")
+    if sn < 200 or len(ssj["mode_triples"]) < 30:
+        raise ToolError("vacuous sequence bitstream rows: %s" % ctx.cov["sequence_bitstreams"])
+    ctx.evaluations += sn
     # ---- real compressors ----
     idx = fdlib.corpus(ctx)
     fdlib.random_schedules(ctx, 12 if q else 80, idx)
